@@ -29,6 +29,9 @@ pub trait Chunky: Clone + Send + Sync + 'static {
     fn observe_(&self) -> Obs;
     fn item_json(i: &Self::Item) -> Value;
     fn item_parse(v: &Value) -> Option<Self::Item>;
+    fn has_merge() -> bool {
+        true
+    }
 }
 
 #[derive(Debug)]
